@@ -90,6 +90,16 @@ UniqC(e) == << <<"panic", e.p = 0>>, <<"uniq", e.u = Uniq(e.b, e.path)>>, <<"uni
                <<"from_uniq_ivoa", e.fui.d = e.d /\ e.fui.b = e.b /\ e.fui.p = e.path>> >>
 UniqBadC(e) == << <<"nopanic_to_uniq", e.pu = 1>>, <<"nopanic_to_uniq_ivoa", e.pi = 1>> >>
 
+(* ---- projection (C17): deviations are measured by the bridge in 1e-15 units, judged here ---- *)
+TolProj == 10            \* 1e-14
+ProjC(e) == << <<"panic", e.p = 0>>,
+               <<"sign_and_range", e.p = 1 \/ (e.sign = 1 /\ e.range = 1)>>,
+               <<"formulae", e.p = 1 \/ (e.dx <= TolProj /\ e.dy <= TolProj)>>,
+               <<"unproj_inverts", e.p = 1 \/ (e.back <= TolProj /\ e.bsign = 1)>>,
+               <<"proj_inverts", e.p = 1 \/ e.fwd <= TolProj>>,
+               <<"base_cell", e.p = 1 \/ e.bc \in {c[1] : c \in StarFace(1, e.f1)}>> >>
+ProjBadC(e) == << <<"nopanic_proj", e.pp = 1>>, <<"nopanic_unproj", e.pu = 1>> >>
+
 Clauses(e) == CASE e.ev = "hash" -> HashC(e)
                 [] e.ev = "hash_bad" -> HashBadC(e)
                 [] e.ev = "hier" -> HierC(e)
@@ -102,6 +112,8 @@ Clauses(e) == CASE e.ev = "hash" -> HashC(e)
                 [] e.ev = "ring_hash" -> RingHashC(e)
                 [] e.ev = "ring_center" -> RingCenterC(e)
                 [] e.ev = "ring_bad" -> RingBadC(e)
+                [] e.ev = "proj" -> ProjC(e)
+                [] e.ev = "proj_bad" -> ProjBadC(e)
                 [] e.ev = "zoc" -> ZocC(e)
                 [] e.ev = "uniq" -> UniqC(e)
                 [] e.ev = "uniq_bad" -> UniqBadC(e)
